@@ -409,6 +409,27 @@ fn plain_summaries(acc: &mut Acc) {
 /// The summary is made of *step* evidence. A layout whose inspection carries the name of its first /
 /// last step (C08's shape S4, run in a worker with a private working directory) must still return
 /// the step's materials, products, command and byproducts.
+/// The same layout (an inspection that carries the name of its step) with a step whose signed link
+/// breaks the step's rules: complete verification fails, whatever the inspection's link says.
+fn failing_step_with_colliding_inspection(acc: &mut Acc) {
+    for fault in ["step-rule-fail:first", "step-rule-fail-by-name:first", "step-rule-fail-by-name:last"] {
+        let case = json!({"shape": "S4", "faults": [fault], "cmd": "exit0", "rule": "none", "cmd_pos": 0});
+        let r = crate::worker::run_cases("c08", std::slice::from_ref(&case), 120);
+        acc.evaluations += 1;
+        acc.nontrivial += 1;
+        match &r[0] {
+            crate::worker::WorkerResult::Done(out) => {
+                if out["detail"].get("ok").is_some() {
+                    acc.violation("accepted:step-rule-failure-hidden-by-an-inspection-of-its-name", "a layout whose step's signed link breaks the step's rules was accepted because an inspection carries the step's name", || json!({"inspection_named_like_step": true, "fault": fault, "observed": out}));
+                } else {
+                    acc.outcome("failing-step-next-to-inspection-of-its-name-rejected");
+                }
+            }
+            _ => crate::util::machinery_error("C15: worker for the colliding-name case died"),
+        }
+    }
+}
+
 fn summary_with_colliding_inspection(acc: &mut Acc) {
     let case = json!({"shape": "S4", "faults": [], "cmd": "exit0", "rule": "none", "cmd_pos": 0});
     let r = crate::worker::run_cases("c08", std::slice::from_ref(&case), 120);
@@ -602,6 +623,7 @@ pub fn run(tier: Tier) -> i32 {
     surplus_leg(&mut acc);
     plain_summaries(&mut acc);
     summary_with_colliding_inspection(&mut acc);
+    failing_step_with_colliding_inspection(&mut acc);
     crate::envprobe::judge(&mut acc, "C15:", &mut c.extra);
     c.acc = acc;
     c.rule = "state = (outer shape in {delegated step alone, delegated step followed by a step that MATCHes its products, a step followed by the delegated step, delegated step alone whose first inner step has no materials and whose last has no products}, inner sequence of 1..3 steps, 2 or 3 delegation levels, set of active deviations); transition = toggle one deviation starting from the fully valid tree; each state is one in_toto_verify run on a freshly built directory tree; non-trivial = at least one deviation".into();
@@ -619,6 +641,7 @@ pub fn replay(case: &Value) -> Value {
     }
     if case.get("inspection_named_like_step").is_some() {
         let mut acc = Acc::new();
+        failing_step_with_colliding_inspection(&mut acc);
         summary_with_colliding_inspection(&mut acc);
         return json!({"violation": acc.violations.keys().next()});
     }
